@@ -486,3 +486,35 @@ Example C07_ex_pipeline :
   | _ => False
   end.
 Proof. vm_compute. repeat split. Qed.
+
+(* ---------- "shows the datum's text verbatim": the serialisation of the SVG text nodes -------
+   TimelineSVG sets element.text and ElementTree.tostring writes us-ascii: & < > as named
+   entities, every code point above 127 as a decimal character reference (Text/Xml.v, tied to
+   the raw bytes of the export by the xml family of this check, API 503).  Reading the
+   character data back gives exactly the text, for EVERY list of Unicode code points; the
+   decimal references are covered by an exhaustive kernel computation over all 1 114 112 code
+   points (the bound is in the statement). *)
+From Coq Require Import NArith.
+From Labella Require Import Text.Xml Text.XmlProofs.
+
+Theorem C07_text_verbatim_xml : forall s,
+  Forall (fun c => (c < 1114112)%N) s -> xml_read (xml_escape s) = Some s.
+Proof. exact xml_roundtrip. Qed.
+Print Assumptions C07_text_verbatim_xml.
+
+Theorem C07_text_xml_injective : forall s t,
+  Forall (fun c => (c < 1114112)%N) s -> Forall (fun c => (c < 1114112)%N) t ->
+  xml_escape s = xml_escape t -> s = t.
+Proof. exact xml_escape_injective. Qed.
+Print Assumptions C07_text_xml_injective.
+
+Theorem C07_text_xml_plain : forall s,
+  Forall (fun c => (c < 128 /\ c <> AMP /\ c <> LT /\ c <> GT)%N) s -> xml_escape s = s.
+Proof. exact xml_escape_plain. Qed.
+Print Assumptions C07_text_xml_plain.
+
+Example C07_ex_xml :
+  xml_escape [97; 60; 98; 62; 38; 8364; 128512]%N
+  = [97; 38;108;116;59; 98; 38;103;116;59; 38;97;109;112;59; 38;35;56;51;54;52;59; 38;35;49;50;56;53;49;50;59]%N /\
+  xml_read (xml_escape [97; 60; 98; 62; 38; 8364; 128512]%N) = Some [97; 60; 98; 62; 38; 8364; 128512]%N.
+Proof. vm_compute. split; reflexivity. Qed.
